@@ -22,7 +22,7 @@ CHECKS = {
    technique="TLA+ spec + TLC exhaustive + liveness; fault-schedule replay keyed by datagram identity; TLC trace validation", design="5/C02"),
  "C03": dict(category="model_checking",
    text="Close is modelled as the code's steps (CloseBegin/CloseTimeout/CloseFlush; close acted on when dispatched; Read as ReaderCheck/ReaderWait); TLC checks CloseNoTrunc on SessionPacket and SessionStream and shows the pre-fix variants violating it. Closing fault schedules from TLC, named close races (reader parked at hook read.wait, backlog of recvQueue+recvChan, lost/overtaken/echoed close requests) and random close points run on real muxes; TLC evaluates CloseNoTrunc at every Read return of every trace.",
-   note="Trusted: TLC, synctest, hook read.wait (tag verif). Three genuine defects were found and fixed (known_findings.json).",
+   note="Trusted: TLC, synctest, hook read.wait (tag verif). Four genuine defects were found and fixed (known_findings.json).",
    technique="TLA+ spec + TLC exhaustive; gated interleaving replay; TLC trace validation", design="5/C03"),
  "C13": dict(category="model_checking",
    text="AckSound/AckOnWire/NoEarlyDiscard are invariants of SessionPacket.tla (TLC exhaustive). On the real code the check is observational: the simulated network logs deliveries and emissions under one lock, an independent codec decodes every datagram, and TLC evaluates AckSound, RetxSame, SeqDense and TxContiguous at every emitted datagram of every replayed fault schedule (application buffers are reused and overwritten after Write returns, as io.Copy does).",
@@ -68,9 +68,9 @@ AUTO = {  # property -> (category, trusted base / bounds, technique)
          "TLA+ framing automata + TLC exhaustive; case replay through the real tunnel, wrapper and relay; TLC trace validation"),
  "C19": ("model_checking", "Trusted: TLC, synctest time. Counter model exhaustive at scaled units; recorded histories validated at the real constants.",
          "TLA+ specs + TLC exhaustive; TLC validation of recorded counter histories at real constants; quota-case replay on real muxes"),
- "C10": ("exploration", "Trusted: TLC (generator and monitor), reference codec, the supervisor's reading of the child's exit. This is directed exploration of an unbounded input language, not a proof: field classes are boundary values, 1-3 lying fields per unit, 24 steps per behaviour; quick tier 32 behaviours and ~1800 SOCKS5 units, thorough tier 600 behaviours and every enumerated SOCKS5 class member in every world. One genuine defect (cross-user session id panic) found and fixed.",
+ "C10": ("exploration", "Trusted: TLC (generator and monitor), reference codec, the supervisor's reading of the child's exit. This is directed exploration of an unbounded input language, not a proof: field classes are boundary values, 1-3 lying fields per unit, 24 steps per behaviour; quick tier 32 behaviours and ~1800 SOCKS5 units, thorough tier 600 behaviours and every enumerated SOCKS5 class member in every world. Two genuine defects (cross-user session id panic; atomic.Value panic in the UDP relay loops) found and fixed.",
          "TLA+ input-language specs; TLC-simulated / enumerated hostile inputs replayed against real endpoints in a supervised child process; TLC validation of the event streams"),
- "C15": ("model_checking", "Trusted: TLC, the Go scheduler and wall clock of a loaded machine (bounds: 1 s deadline slack, 3 s local close, 8 s remote close / failure / Close itself), pprof goroutine labels for leak attribution, the race detector. Real time, not virtual: schedules are 14 steps; quick tier 36 simulated + 32 named schedules on both transports, thorough tier 400 + idle periods beyond the 60 s idle timeout. Five genuine defects fixed, three recorded as known findings.",
+ "C15": ("model_checking", "Trusted: TLC, the Go scheduler and wall clock of a loaded machine (bounds: 1.5 s deadline slack, 4 s local close, 9 s remote close / failure / Close itself), pprof goroutine labels for leak attribution, the race detector. Real time, not virtual: schedules are 14 steps; quick tier 36 simulated + 34 named schedules on both transports, thorough tier 400 + idle periods beyond the 60 s idle timeout. Seven genuine defects fixed, one recorded as a known finding.",
          "TLA+ spec + TLC exhaustive (with a violating variant); schedule replay on real muxes in real time with timed operations; TLC validation of the timed records; race detector run"),
  "C20": ("model_checking", "Trusted: TLC. Field values inside a class are adversarial samples; the set of fields is the model's.",
          "TLA+ merge spec + TLC; case replay through the real store / patch / link functions on both file formats; TLC trace validation"),
